@@ -149,7 +149,23 @@ tuple_vals!(a b c d e f g); tuple_vals!(a b c d e f g h); tuple_vals!(a b c d e 
 tuple_vals!(a b c d e f g h i j k); tuple_vals!(a b c d e f g h i j k l);
 impl IntoVals for Val { fn into_vals(self) -> Vec<u64> { vec![take(self)] } }
 
+/// the two-argument methods of `FutureExt` / `StreamExt` (`a.join(b)`, `a.race(b)`, `a.merge(b)`, `a.chain(b)`, `a.zip(b)`): thin wrappers over the
+/// tuple impls of arity 2, so the model is the tuple model at n = 2
+fn build_ext(comb: &str, kids: Vec<Child>) -> PollFn {
+    use futures_concurrency::future::FutureExt as FE;
+    use futures_concurrency::stream::StreamExt as SE;
+    let mut it = kids.into_iter(); let a = it.next().unwrap(); let b = it.next().unwrap();
+    match comb {
+        "join" => fut_fn(FE::join(Fut(a), Fut(b)), |o| list("R", &o.into_vals())),
+        "race" => fut_fn(FE::race(Fut(a), Fut(b)), |o| list("R", &o.into_vals())),
+        "merge" => str_fn(SE::merge(Str(a), Str(b)), |o| list("S", &o.into_vals())),
+        "chain" => str_fn(SE::chain(Str(a), Str(b)), |o| list("S", &o.into_vals())),
+        "zip" => str_fn(SE::zip(Str(a), Str(b)), |o| list("S", &o.into_vals())),
+        _ => panic!("no two-argument method for {comb}"),
+    }
+}
 fn build(comb: &str, cont: &str, kids: Vec<Child>) -> PollFn {
+    if cont == "ext" && !comb.starts_with("wait_") { return build_ext(comb, kids); }
     match comb {
         "join" => { let v: Vec<Fut> = kids.into_iter().map(Fut).collect(); conts!(zero cont, v, join, fut_fn, |o| list("R", &o.into_vals())) }
         "try_join" => { let v: Vec<TryFut> = kids.into_iter().map(TryFut).collect();
